@@ -77,6 +77,7 @@ type Machine struct {
 	MaxSteps   int
 	MaxDepth   int
 	PanicIsBug bool
+	HangIsViolation bool
 	InitPkgs   map[string]bool // packages whose init runs (others skipped)
 
 	// per path
@@ -119,6 +120,7 @@ type Machine struct {
 	RecordEvents bool
 	trackCell map[*value]bool
 	trackMap map[*Map]bool
+	trackRoots []value
 	RaceQueries int
 	clockReads int
 	onceDone map[*value]bool
@@ -993,6 +995,7 @@ func (m *Machine) RunPath(entry *ssa.Function, it Item) (kind, reason string) {
 	m.RecordEvents = false
 	m.trackCell = nil
 	m.trackMap = nil
+	m.trackRoots = nil
 	m.clockReads = 0
 	md := it.Model
 	if md == nil {
